@@ -304,6 +304,8 @@ func main() {
 		runOracleCmd(os.Args[2:])
 	case "costprobe":
 		runCostProbe()
+	case "probe":
+		runProbeChild(os.Args[2:])
 	default:
 		fmt.Fprintln(os.Stderr, "unknown command")
 		os.Exit(2)
